@@ -562,9 +562,10 @@ def run(tier, seed):
     return cov, violations
 
 OPEN_ITEMS = [
-    "proved (Props/C05.v, unbounded, every valid decomposition / order / label set): C05_edges_once, C05_inline, C05_fresh, C05_method_honoured (+ _hrg), C05_hrg_keeps_labels, C05_fgg_keeps_labels_factors_domains, C05_valid_td_rooted, C05_visit_visits_every_bag_once, C05_clique_in_a_bag, C05_visit_is_structural, oracle soundness (C05_inline_ok_sound, C05_fresh_ok_sound, C05_nodes_ok_sound); generic in the commutative semiring: C05_unfold_rule, C05_unfold_step, C05_unfold_fixpoints, C05_sum_product_partial (Zk unchanged by one unfolding, non-recursive grammars), C05_sum_product_rule (the new rule for the original lhs has the value of the original rule in every environment that solves the fresh nonterminals' equations); records of the repaired defects: C05_method_honoured_old_refuted (F7), C05_labels_old_refuted (F20), C05_fresh_old_refuted(_silent) (F22); C05_invalid_td_loses_edge_example",
-    "open: C05_sum_product at grammar level (Zk of to_sp_grammar before = after on every original nonterminal): the rule-level theorem C05_sum_product_rule and the one-step unfolding theorems are proved; missing is the assembly over all rules of a grammar (fresh nonterminals have one rule each in the whole grammar; the label numbering of the factorised grammar extends the original one) and, for recursive grammars, the passage from 'same solutions of the equations' to the limit of the Kleene iterates; covered per case by fz_sp_check (exact Ztab before/after) and the float comparison",
-    "open: no Coq theorem about the gluing done by factorize_hrg beyond label preservation (fresh names unique across rules, rules regrouped by lhs); covered per case by glue_ok and the model comparison",
+    "proved (Props/C05.v, unbounded, every valid decomposition / order / label set): C05_edges_once, C05_inline, C05_fresh, C05_method_honoured (+ _hrg), C05_hrg_keeps_labels, C05_fgg_keeps_labels_factors_domains, C05_valid_td_rooted, C05_visit_visits_every_bag_once, C05_clique_in_a_bag, C05_visit_is_structural, oracle soundness (C05_inline_ok_sound, C05_fresh_ok_sound, C05_nodes_ok_sound); generic in the commutative semiring: C05_unfold_rule, C05_unfold_step, C05_unfold_fixpoints, C05_sum_product_partial (Zk unchanged by one unfolding, non-recursive grammars), C05_sum_product_rule and C05_sum_product_rule_all (the new rule for the original lhs has the value of the original rule at EVERY external assignment, empty domains included, in every environment that solves the fresh nonterminals' equations); records of the repaired defects: C05_method_honoured_old_refuted (F7), C05_labels_old_refuted (F20), C05_fresh_old_refuted(_silent) (F22); C05_invalid_td_loses_edge_example",
+    "proved, GRAMMAR level (factorize_hrg and factorize_fgg, every valid decomposition per rule, every order): C05_glue_hrg / C05_glue_fgg (the gluing: table extended at its end, rules = the calls' outputs regrouped, fresh names pairwise different over the whole grammar, every lhs in the table), C05_label_numbering(_fgg) (original labels keep their numbers), C05_call_facts (the new rules of a call are in post-order), C05_factorize_refines; C05_sum_product_nonrec(_fgg, _start): NON-RECURSIVE grammars, EVERY commutative semiring -- the factorised grammar is non-recursive and Zk (k >= #nonterminals = the sum over all derivation trees, C01) of every original nonterminal at every index tuple is unchanged (the start symbol at k = #nonterminals is exactly what fz_sp_check compares); C05_sum_product_recursive(_fgg): recursive grammars included, ORDERED commutative semirings -- Zk G' k X <= Zk G k X and Zk G k X <= Zk G' (c k) X for a constant c, hence same upper bounds, same suprema (least fixed points when they exist as limits), same enclosures (C02); C05_sum_product_fixpoints: every commutative semiring -- solutions of the equations of G' restrict to solutions of G and solutions of G extend to G' with the same values on original labels; ordered -- pre-fixed points extend / restrict (Park: least pre-fixed points agree on original nonterminals)",
+    "not covered by a theorem: for RECURSIVE grammars in a commutative semiring WITHOUT an order there is no notion of 'the' infinite sum in the development; proved there is only the two-way correspondence of the solutions of the equations (C05_sum_product_fixpoints)",
+    "assumption of the grammar-level theorems: node ids of every rule are its positions 0..n-1 (ids_are_positions: as the harness numbers them); invariance under renaming of node ids is not proved",
     "open: totality of the model (no Err on a valid decomposition with valid orders) is not proved; no model error was observed",
 ]
 
@@ -591,7 +592,7 @@ def replay(path):
 
 MANIFEST = dict(
     level="proof",
-    text="Coq: a Gallina model of factorize_rule/visit, factorize_hrg, factorize_fgg (Model/Factorize.v); theorems for EVERY rule, EVERY valid tree decomposition of its primal graph and EVERY set-iteration order; executable oracles inline_ok / fresh_ok / nodes_ok proved sound and run on every implementation output; correspondence: the decomposition actually used and the observed orders are recorded and the model is run on them, outputs compared rule by rule; sum-product before/after compared exactly in Coq (Ztab) and through fggs.sum_product.",
+    text="Coq: a Gallina model of factorize_rule/visit, factorize_hrg, factorize_fgg (Model/Factorize.v); theorems for EVERY rule, EVERY valid tree decomposition of its primal graph and EVERY set-iteration order; executable oracles inline_ok / fresh_ok / nodes_ok proved sound and run on every implementation output; correspondence: the decomposition actually used and the observed orders are recorded and the model is run on them, outputs compared rule by rule; sum-product before/after compared exactly in Coq (Ztab) and through fggs.sum_product; grammar-level theorems: for every grammar, every valid decomposition per rule and every order the sum over all derivations of every original nonterminal is unchanged in every commutative semiring (non-recursive grammars, C05_sum_product_nonrec), and for recursive grammars in ordered semirings the Kleene iterates of the two grammars are sandwiched, so least fixed points / enclosures agree (C05_sum_product_recursive).",
     note="Trusted: Coq kernel, extraction cross-checked by vm_compute, harness canonicalisation and recorder; validity of the decompositions the three methods return is C10; see the evidence's open_items.",
     technique="Coq proof (model + theorems) + model/implementation correspondence with verified-spec oracles",
     design_ref="DESIGN.md section 6, C05")
